@@ -1,15 +1,16 @@
 #!/bin/bash
 # usage: seed_run.sh <seed-dir with patch.diff> <name> <pid> [<pid> ...]
 # Runs the quick checks of the given properties against a scratch worktree of /repo with the patch applied,
-# from a scratch copy of the current /verif working tree (so /repo and /verif/evidence are not touched).
+# from a scratch copy of the committed /verif (so /repo and /verif/evidence are not touched).
 set -u
 SD=$(readlink -f "$1"); NAME=$2; shift 2
 BASE=/tmp/seedrun/$NAME
 rm -rf "$BASE"; mkdir -p "$BASE"
 git -C /repo worktree add --detach "$BASE/repo" HEAD >/dev/null 2>&1 || exit 3
 ( cd "$BASE/repo" && git apply "$SD/patch.diff" ) || { echo "patch failed" > "$BASE/FAILED"; }
-rsync -a --exclude .git --exclude replays --exclude evidence /verif/ "$BASE/verif/"
-mkdir -p "$BASE/verif/evidence" "$BASE/verif/replays"
+mkdir -p "$BASE/verif"
+git -C /verif archive HEAD | tar -x -C "$BASE/verif"      # committed state of /verif (not a half-edited working tree)
+rm -rf "$BASE/verif/evidence" "$BASE/verif/replays"; mkdir -p "$BASE/verif/evidence" "$BASE/verif/replays"
 cd "$BASE/verif"
 for pid in "$@"; do
   PYTHONPATH="$BASE/repo/src" PYVC_REPO_SRC="$BASE/repo/src" VERIF_SEED=${VERIF_SEED:-1} timeout 3600 ./check "$pid" --tier quick > "$BASE/out_$pid.txt" 2>&1
